@@ -15,7 +15,8 @@ RULE = ("exhaustive exploration of command histories of depth <=3 (quick) / <=4 
         "kernel). states = distinct canonical project states (rows + Merkle digest of cond-out); transitions = commands executed. "
         "invariants: at every experiment spawn the version id exceeds every id recorded in the project and every id handed out "
         "earlier in the invocation, COND_OUT did not exist before the command and holds nothing but Conductor's own empty log files; "
-        "the digest of every recorded version directory is unchanged by every later command")
+        "the digest of every recorded version directory is unchanged by every later command"
+        ' One of the three experiments lives in a nested package (//p/q:e0) so that per-package output paths are exercised.')
 ASSUMPTIONS = [
     "'empty when the command starts' is read modulo Conductor's own stdout.log/stderr.log (opened before the spawn in slot mode)",
     "clean is not in the alphabet (it is the one command allowed to remove recorded versions)",
